@@ -795,11 +795,7 @@ func init() {
 	}
 	m["net/http.CanonicalHeaderKey"] = m["net/textproto.CanonicalMIMEHeaderKey"]
 	m["net/http.StatusText"] = func(ex *Exec, c *frame, fn *ssa.Function, a []value) value {
-		t := a[0].(*Term)
-		if t.IsConst() {
-			return ex.tc.StrConst(httpStatusText(int(signExt(t.u, 64))))
-		}
-		return ex.tc.UF("http_StatusText", StrSort, t)
+		return ex.statusTextOf(a[0].(*Term))
 	}
 	m["strconv.Itoa"] = func(ex *Exec, c *frame, fn *ssa.Function, a []value) value {
 		t := a[0].(*Term)
@@ -814,6 +810,9 @@ func init() {
 			return ex.tc.StrConst(strconv.FormatInt(signExt(t.u, 64), int(b.u)))
 		}
 		return ex.tc.UF("strconv_FormatInt", StrSort, t, b)
+	}
+	m["os.Hostname"] = func(ex *Exec, c *frame, fn *ssa.Function, a []value) value {
+		return tuple{ex.input("os.hostname", StrSort), iface{}}
 	}
 	// --- math ---
 	m["math.Abs"] = func(ex *Exec, c *frame, fn *ssa.Function, a []value) value { return ex.tc.FPAbs(a[0].(*Term)) }
@@ -951,7 +950,7 @@ func (ex *Exec) errorsIs(c *frame, err, target iface, depth int) *Term {
 			}
 		}
 		// Is method
-		if f := ex.prog.LookupMethod(cur.t, nil, "Is"); f != nil && f.Signature.Params().Len() == 1 {
+		if f := ex.lookupMethod(cur.t, nil, "Is"); f != nil && f.Signature.Params().Len() == 1 {
 			r := ex.call(c, f, []value{cur.v, target}, token.NoPos).(*Term)
 			if r.IsConst() {
 				if r.BoolVal() {
@@ -961,7 +960,7 @@ func (ex *Exec) errorsIs(c *frame, err, target iface, depth int) *Term {
 				return tc.True()
 			}
 		}
-		f := ex.prog.LookupMethod(cur.t, nil, "Unwrap")
+		f := ex.lookupMethod(cur.t, nil, "Unwrap")
 		if f == nil {
 			return tc.False()
 		}
@@ -1017,7 +1016,7 @@ func (ex *Exec) errorsAs(c *frame, err, target iface) *Term {
 			}
 			return tc.True()
 		}
-		f := ex.prog.LookupMethod(cur.t, nil, "Unwrap")
+		f := ex.lookupMethod(cur.t, nil, "Unwrap")
 		if f == nil {
 			return tc.False()
 		}
@@ -1142,4 +1141,23 @@ func sortedKeys(m map[string]bool) []string {
 	}
 	sort.Strings(ks)
 	return ks
+}
+
+// lookupMethod is LookupMethod that returns nil instead of panicking when absent.
+func (ex *Exec) lookupMethod(t types.Type, pkg *types.Package, name string) *ssa.Function {
+	sel := ex.prog.MethodSets.MethodSet(t).Lookup(pkg, name)
+	if sel == nil {
+		return nil
+	}
+	return ex.prog.MethodValue(sel)
+}
+
+func (ex *Exec) statusTextOf(t *Term) *Term {
+	if t.IsConst() {
+		return ex.tc.StrConst(httpStatusText(int(signExt(t.u, 64))))
+	}
+	if t.op == "ite" {
+		return ex.tc.Ite(t.args[0], ex.statusTextOf(t.args[1]), ex.statusTextOf(t.args[2]))
+	}
+	return ex.tc.UF("http_StatusText", StrSort, t)
 }
